@@ -39,8 +39,14 @@ class Worktree:
         shutil.rmtree(self.path, ignore_errors=True)
 
 
+TAG = ""
+
+
 def confirm(src):
     mid = os.path.basename(src.rstrip("/"))
+    if TAG:
+        a, b = mid.rsplit("-", 1)
+        mid = f"{a}-{TAG}{b}"
     with Worktree() as wt:
         rc, out = sh(["git", "-C", wt, "apply", os.path.join(src, "patch.diff")])
         if rc != 0:
@@ -110,6 +116,10 @@ def detect(mid, tier="quick"):
 
 
 def main(argv):
+    global TAG
+    if "--tag" in argv:
+        TAG = argv[argv.index("--tag") + 1]
+        argv = [a for a in argv if a not in ("--tag", TAG)]
     if argv[0] == "confirm":
         for d in argv[1:]:
             for sub in sorted(os.listdir(d)):
